@@ -67,6 +67,23 @@ InnerCase(j) ==        \* [first, plain]: first inner type and the plaintext (a 
     [] j = 12 -> [first |-> FirstOf(ch), plain |-> Padded(<< >>), cls |-> "free"]                            \* announces payloads, carries none
     [] OTHER -> LET v == (j - 13) * 17 % 256 IN                                                           \* arbitrary pad-length octets on 32 octets of plaintext
                 [first |-> 40, plain |-> << 0, 0, 0, 20 >> \o D(27, j) \o << v >>, cls |-> IF v + 1 > 32 THEN "reject" ELSE "free"]
+\* ---- datagrams too short to be protected messages: an Encrypted payload with a body of 0..48 octets (shorter than IV + one block +
+\* checksum for every suite), the bare header announcing a payload, a header followed by a fragment of a generic payload header.
+\* Every one is an error -- never a crash, never "neither value nor error", whatever the suite's checksum length (C04, C02).
+ShortVector(s, r) ==
+  LET keys == KeysOf(s, 1)
+      body(n) == EncHeader(InnerBase, 46, 4 + n) \o << 0, 0 >> \o U16(4 + n) \o D(n, 90 + n)
+      bare(nx) == EncHeader(InnerBase, nx, 0)
+      frag(k) == EncHeader(InnerBase, 46, k) \o Take(<< 0, 0, 0, 40 >>, k)
+      st(w, mode, mustErr) == UnprotectCaps("C04", "R", ~r, w, mode,
+                                            IF mustErr THEN [panic |-> FALSE, capdiff |-> FALSE, err |-> TRUE] ELSE [panic |-> FALSE, capdiff |-> FALSE]) IN
+  Vector("sk_short", << SaNew("R", s, keys) >>
+    \o [i \in 1..49 |-> st(body(i - 1), IF i % 2 = 0 THEN "nil" ELSE "pre", TRUE)]
+    \o [i \in 1..49 |-> st(body(i - 1), IF i % 2 = 0 THEN "pre" ELSE "nil", TRUE)]
+    \o << st(bare(46), "nil", TRUE), st(bare(46), "pre", TRUE), st(bare(33), "nil", TRUE), st(bare(1), "pre", TRUE), st(bare(255), "nil", TRUE),
+          st(bare(0), "nil", FALSE), st(bare(0), "pre", FALSE),
+          st(frag(1), "nil", TRUE), st(frag(2), "pre", TRUE), st(frag(3), "nil", TRUE) >>)
+
 \* ---- authentic datagrams with unsupported payloads in the cleartext chain IN FRONT of the Encrypted payload (C13 through unprotection)
 OuterPre(j) == CASE j = 1 -> << [t |-> 49, crit |-> 0, body |-> << 1, 2, 3 >>] >>
                  [] j = 2 -> << [t |-> 200, crit |-> 0, body |-> << >>], [t |-> 255, crit |-> 0, body |-> Zeros(33)] >>
@@ -78,8 +95,18 @@ OuterVector(s, r, j) ==
     SaNew("R", s, keys),
     UnprotectCaps("C13", "R", ~r, w, IF j % 2 = 0 THEN "nil" ELSE "pre",
                   IF j <= 2 THEN AcceptExp(InnerBase) ELSE [panic |-> FALSE, capdiff |-> FALSE, err |-> TRUE]) >>)
-NInner == 12 + 16 + 3
+\* the encrypted chain consists of unsupported non-critical payloads only: the message decodes to an empty payload list
+OnlyUnkVector(s, r) ==
+  LET keys == KeysOf(s, 1)
+      unk(t, nx, body) == << nx, 0 >> \o U16(4 + Len(body)) \o body
+      plain == Padded(unk(200, 49, << 1, 2, 3 >>) \o unk(49, 0, << >>))
+      w == RefProtectRaw(InnerBase, 200, plain, s, keys, r, PadFill(9, 16)) IN
+  Vector("sk_onlyunk", << SaNew("R", s, keys),
+    UnprotectCaps("C13", "R", ~r, w, "nil", AcceptExp([InnerBase EXCEPT !.payloads = << >>])),
+    UnprotectCaps("C13", "R", ~r, w, "pre", AcceptExp([InnerBase EXCEPT !.payloads = << >>])) >>)
+NInner == 12 + 16 + 3 + 2
 InnerVector(s, r, j) ==
+  IF j = 32 THEN OnlyUnkVector(s, r) ELSE IF j = 33 THEN ShortVector(s, r) ELSE
   IF j > 28 THEN OuterVector(s, r, j - 28) ELSE
   LET c == InnerCase(j) keys == KeysOf(s, 1)
       w == RefProtectRaw(InnerBase, c.first, c.plain, s, keys, r, PadFill(j, 16)) IN
@@ -105,12 +132,23 @@ BigVector(s, r, j) ==
 
 \* ---- many messages protected on ONE long-lived object in one role (sizes vary so that pad lengths vary), each accepted by the peer
 SeqMsg(i) == Msg((i % 5) + 1, << [k |-> "NONCE", data |-> D((i * 7) % 23, i)], Rep("N") >>)
+\* every sixth message is preceded by a protect during which the random source fails (at its first, second or third read): that
+\* attempt gives an error -- or, if the failure is not reached, a datagram -- and the object goes on as if nothing had happened
+SeqFault(j) == [mode |-> "fail", seed |-> j, failat |-> (j \div 6) % 3]
+RECURSIVE SeqSteps(_, _, _, _, _)
+SeqSteps(r, j, n, at, props) ==        \* at: number of steps emitted so far (the two SaNew included)
+  IF j > n THEN << >>
+  ELSE LET fault == IF j % 6 = 0
+                      THEN << Step("protect", props[1], FALSE, [sa |-> "S", role |-> r, msg |-> SeqMsg(j + 100), rand |-> SeqFault(j)],
+                                   IF SeqFault(j).failat = 0 THEN [panic |-> FALSE, err |-> TRUE, faultok |-> TRUE] ELSE [panic |-> FALSE, faultok |-> TRUE]) >>
+                      ELSE << >>
+           k == at + Len(fault) IN
+       fault \o << ProtectStep(props[1], "S", r, SeqMsg(j), "system"),
+                   UnprotectStep(props[2], "R", ~r, Ref(k + 1, "wire"), "nil", AcceptExp(SeqMsg(j))) >>
+             \o SeqSteps(r, j + 1, n, k + 2, props)
 SeqVector(s, r, n) ==
-  LET pp == IF OnlySeq THEN "C17" ELSE "C06" pu == IF OnlySeq THEN "C17" ELSE "C01" IN
-  Vector("sk_sequence", << SaNew("S", s, KeysOf(s, 1)), SaNew("R", s, KeysOf(s, 1)) >> \o
-    [i \in 1..(2 * n) |->
-       IF i % 2 = 1 THEN ProtectStep(pp, "S", r, SeqMsg((i + 1) \div 2), "system")
-       ELSE UnprotectStep(pu, "R", ~r, Ref(i + 1, "wire"), "nil", AcceptExp(SeqMsg(i \div 2)))])
+  LET props == IF OnlySeq THEN << "C17", "C17" >> ELSE << "C06", "C01" >> IN
+  Vector("sk_sequence", << SaNew("S", s, KeysOf(s, 1)), SaNew("R", s, KeysOf(s, 1)) >> \o SeqSteps(r, 1, n, 2, props))
 
 NVariants == 9 + 16 + NInner + NBig + 1
 Init == stage = 0 /\ su = 0 /\ role = TRUE /\ mi = 0 /\ variant = 0
